@@ -79,6 +79,10 @@ type (
 		Collation    *string // mysql
 		Engine       *string // mysql
 		AutoInc      int64   // mysql (0 = absent)
+		// round 5 (stage tattrs)
+		EngineDefault bool   // mysql.Engine.Default
+		SysVer        bool   // mysql.SystemVersioned
+		Partition     string // postgres.Partition as "<type>:<col>,<col>" ("" = absent)
 	}
 	Schema struct {
 		Name   string
@@ -274,10 +278,22 @@ func build(dialect string, s Schema) *schema.Schema {
 				t.Attrs = append(t.Attrs, &schema.Collation{V: *ts.Collation})
 			}
 			if ts.Engine != nil {
-				t.Attrs = append(t.Attrs, &mysql.Engine{V: *ts.Engine})
+				t.Attrs = append(t.Attrs, &mysql.Engine{V: *ts.Engine, Default: ts.EngineDefault})
 			}
 			if ts.AutoInc != 0 {
 				t.Attrs = append(t.Attrs, &mysql.AutoIncrement{V: ts.AutoInc})
+			}
+			if ts.SysVer {
+				t.Attrs = append(t.Attrs, &mysql.SystemVersioned{})
+			}
+		case "postgres":
+			if ts.Partition != "" {
+				f := strings.SplitN(ts.Partition, ":", 2)
+				pt := &postgres.Partition{T: f[0]}
+				for _, cn := range strings.Split(f[1], ",") {
+					pt.Parts = append(pt.Parts, &postgres.PartitionPart{C: colOf(t, cn)})
+				}
+				t.Attrs = append(t.Attrs, pt)
 			}
 		}
 		if ts.Comment != nil {
